@@ -85,7 +85,7 @@ def _dist_config(trace: dict, rank: int, sim: world.Sim, params: list[torch.Tens
     raise adapter.HarnessError(f"world kind {w['kind']} not handled here")
 
 
-def collect_group_info(opt, trace: dict, params: list[torch.Tensor]) -> list[dict]:
+def collect_group_info(opt, trace: dict, params: list[torch.Tensor], counted=None) -> list[dict]:
     """Construction-time observables of every group's distributor on this rank (C14, ownership-aware classification)."""
     infos = []
     for gi, g in enumerate(trace["groups"]):
@@ -94,6 +94,7 @@ def collect_group_info(opt, trace: dict, params: list[torch.Tensor]) -> list[dic
         nb = adapter.num_blocks_per_param(d)
         gblocks = adapter.global_blocks(d)
         info: dict[str, Any] = {
+            "counted_params": [True] * len(g["params"]) if counted is None else [bool(counted[pi]) for pi in g["params"]],
             "selector": list(sel),
             "num_blocks_per_param": list(nb),
             "block_numels": [int(b.numel()) for b in gblocks],
@@ -130,7 +131,7 @@ def collect_group_info(opt, trace: dict, params: list[torch.Tensor]) -> list[dic
         state_blocks = []
         blocks = adapter.local_blocks(opt, gi)
         for block, binfo in blocks:
-            st = opt.state[binfo.param].get(binfo.composable_block_ids[1])
+            st = opt.state.get(binfo.param, {}).get(binfo.composable_block_ids[1])
             has = False
             if st is not None:
                 for _, t in spec.walk_state(st):
@@ -143,13 +144,13 @@ def collect_group_info(opt, trace: dict, params: list[torch.Tensor]) -> list[dic
         keys = []
         for pi in g["params"]:
             p = params[pi]
-            keys.append(sorted(k for k in opt.state[p].keys() if k != "step"))
+            keys.append(sorted(str(k) for k in opt.state.get(p, {}).keys() if k != "step"))
         info["state_keys"] = keys
         info["state_local_numel"] = []
         for pi in g["params"]:
             p = params[pi]
             per = {}
-            for k, v in opt.state[p].items():
+            for k, v in opt.state.get(p, {}).items():
                 if k == "step":
                     continue
                 per[k] = sum(int(spec._local(t).numel()) for _, t in spec.walk_state(v))
@@ -254,9 +255,11 @@ def check_history(sim: world.Sim, prop: str, ctx_base: dict) -> Violation | None
 
 
 def starved_ranks(trace: dict, outs: list[RankOut], ev: dict) -> list[tuple[int, int]]:
-    """(rank, group) pairs for which every owned block lacks a gradient while the group has one (real ownership)."""
-    res = []
-    for r, out in enumerate(outs):
+    """(global rank, group) pairs for which every owned block lacks a gradient while the group has one, from the *real*
+    ownership. Any member of a communication group knows the whole assignment (owner per global block), so a rank that
+    was aborted before reporting is still classified through its peers."""
+    res = set()
+    for out in outs:
         for gi, g in enumerate(trace["groups"]):
             if gi >= len(out.groups_info):
                 continue
@@ -264,13 +267,18 @@ def starved_ranks(trace: dict, outs: list[RankOut], ev: dict) -> list[tuple[int,
             present_param = [ev["g"][pi] is not None for pi in g["params"]]
             if not any(present_param):
                 continue
-            block_present = []
+            present_param = [pp for pp, c in zip(present_param, info.get("counted_params", [True] * len(present_param))) if c]
+            block_present: list[bool] = []
             for pp, nb in zip(present_param, info["num_blocks_per_param"]):
                 block_present.extend([pp] * nb)
-            owned = [bp for bp, s in zip(block_present, info["selector"]) if s]
-            if owned and not any(owned):
-                res.append((r, gi))
-    return res
+            if not any(block_present):
+                continue  # nothing of this group has a gradient on this shard: every member skips consistently
+            owners = info["owners"]
+            for m, grank in enumerate(info["group_ranks"]):
+                owned = [bp for bp, ow in zip(block_present, owners) if ow == m]
+                if owned and not any(owned):
+                    res.add((grank, gi))
+    return sorted(res)
 
 
 def exact_tol(dtype: torch.dtype) -> float:
@@ -420,4 +428,121 @@ def check_replicas(outs: list[RankOut], prop: str, ctx_base: dict, replica_sets:
                     return Violation(
                         prop, "step_counter_diverged", ei, {**ctx_base, "rank_a": rs[0], "rank_b": r, "a": ref.steps.get(ei), "b": o.steps.get(ei)}
                     )
+    return None
+
+
+def compare_with_twin(
+    trace: dict,
+    out: RankOut,
+    layout: list[tuple[int, int, int, tuple[int, ...]]],
+    local_slices,  # (pi) -> (s, e) range of the full parameter's flat elements held locally, or None for dim-0 chunks
+    local_of_full,  # (pi, full_tensor) -> this rank's local tensor of that parameter
+    prop: str,
+    ctx_base: dict,
+    probes: Counter,
+    last_event: int,
+    lossy_possible: bool,
+) -> Violation | None:
+    """Serial twin over `layout`: every entry (pi, a, b, shape) is one independent twin parameter holding elements a..b of
+    the rank's flattened local tensor of parameter pi. The twin is re-synchronised before every step (DESIGN 3.5)."""
+    w = trace["world"]
+    comm_dt = COMM[w.get("comm_dtype", "DEFAULT")]
+    specs = [{"shape": list(sh), "dtype": trace["params"][pi]["dtype"], "init_seed": 0} for pi, a, b, sh in layout]
+    groups = []
+    for g in trace["groups"]:
+        idx = [ti for ti, (pi, a, b, sh) in enumerate(layout) if pi in g["params"]]
+        if not idx:
+            raise adapter.HarnessError("a group has no local element on a rank (generator precondition violated)")
+        groups.append({"params": idx, "overrides": g.get("overrides", {})})
+    ttrace = {**trace, "params": specs, "groups": groups}
+
+    def to_twin(local_list: list[torch.Tensor]) -> list[torch.Tensor]:
+        return [local_list[pi].reshape(-1)[a:b].reshape(sh).clone() for pi, a, b, sh in layout]
+
+    twin = SerialTwin(ttrace, init=to_twin(out.extra["initial"]))
+    prev = to_twin(out.extra["initial"])
+    for ei, ev in enumerate(trace["events"]):
+        if ei > last_event:
+            break
+        if ev["op"] == "set_hparam":
+            twin.opt.param_groups[ev["group"]][ev["key"]] = ev["value"]
+            continue
+        if ei not in out.snaps:
+            break
+        twin.resync(prev)
+        local_grads: dict[int, torch.Tensor] = {}
+        grads = []
+        for pi, a, b, sh in layout:
+            g = ev["g"][pi]
+            if g is None:
+                grads.append(None)
+                continue
+            if pi not in local_grads:
+                ps = trace["params"][pi]
+                full = spec.make_grad(tuple(ps["shape"]), DTYPES_[ps["dtype"]], g[0], g[1], g[2])
+                local_grads[pi] = local_of_full(pi, full)
+            grads.append(local_grads[pi].reshape(-1)[a:b].reshape(sh).clone())
+        exc = twin.step(grads)
+        if exc is not None:
+            probes["serial_twin_raised"] += 1
+            return None
+        dist_vals = to_twin(out.snaps[ei])
+        for ti, (wd, wsp, wp) in enumerate(zip(dist_vals, twin.params, prev)):
+            ws = wsp.detach()
+            pi = layout[ti][0]
+            pdt = ws.dtype
+            present = ev["g"][pi] is not None
+            lossy = lossy_possible and present and spec.UNIT[comm_dt] > spec.UNIT[pdt] * 1.0001
+            if lossy_possible and comm_dt == torch.float16 and pdt == torch.bfloat16:
+                lossy = present
+            if not bool(torch.isfinite(ws).all()) or not bool(torch.isfinite(wd).all()):
+                probes["nonfinite_param_skip"] += 1
+                return None
+            if not lossy:
+                gap = rel_param_gap(wd, ws, wp)
+                probes["exact_compare"] += 1
+                if spec.bit_equal(wd, ws):
+                    probes["exact_bit_equal"] += 1
+                if gap > exact_tol(pdt):
+                    return Violation(
+                        prop,
+                        "diverges_from_serial",
+                        ei,
+                        {**ctx_base, "param": pi, "twin_param": ti, "twin_shape": list(layout[ti][3]), "gap": gap, "tol": exact_tol(pdt), "present": present},
+                    )
+            else:
+                probes["lossy_compare"] += 1
+                v = _lossy_check(wd, ws, wp, comm_dt, pdt, bool(w.get("communicate_params")), probes)
+                if v is not None:
+                    return Violation(prop, "rounding_regime_exceeded", ei, {**ctx_base, "param": pi, "worst_ratio": v, "communicate_params": w.get("communicate_params")})
+        prev = dist_vals
+    # elements outside the layout (FSDP padding never exists; nothing to check)
+    return None
+
+
+DTYPES_ = spec.DTYPES
+
+
+def _lossy_check(wd, ws, wp, comm_dt, pdt, communicate_params: bool, probes: Counter) -> float | None:
+    u_c, u_p = spec.UNIT[comm_dt], spec.UNIT[pdt]
+    ws64, wd64, wp64 = ws.to(torch.float64), wd.to(torch.float64), wp.to(torch.float64)
+    if communicate_params:
+        if comm_dt == torch.float16 and float(ws64.abs().max()) > 6.0e4:
+            probes["fp16_range_skip"] += 1
+            return None
+        bound = 2.0 * u_c * ws64.abs() * (1 + 2.0**-6) + 2.0 * u_p * ws64.abs() + (2.0**-24 if comm_dt == torch.float16 else 0.0)
+    else:
+        delta = (ws64 - wp64).abs()
+        if comm_dt == torch.float16 and float(delta.max()) > 3.0e4:
+            probes["fp16_range_skip"] += 1
+            return None
+        bound = (
+            2.0 * u_c * delta * (1 + 2.0**-6)
+            + 4.0 * u_p * torch.maximum(ws64.abs(), wp64.abs())
+            + 2.0 * u_p * delta
+            + (2.0**-24 if comm_dt == torch.float16 else 0.0)
+            + 1e-300
+        )
+    if float(((wd64 - ws64).abs() - bound).max()) > 0.0:
+        return float(((wd64 - ws64).abs() / (bound + 1e-300)).max())
     return None
